@@ -74,24 +74,24 @@ NA = {
 
 # clauses added after seed rounds 7 to 13 (structural necessary conditions, one sentence each; details per rule in DESIGN.md §3)
 EXTRA = {
- "C01": " Also: the packet header is serialised and parsed at the offsets of the specification, nothing on the reader goroutine's path writes the transmit side of a channel, the channel id reaches the header without passing through a narrower integer type, the wire image of a packet has exactly Header.Length bytes, and a PACKSIZE member of an ENVCHANGE sets the size in force or fails; SetPosition is only the rollback of a failed receive attempt and AddPacket only the receive path; typed writers go through WriteBytes; sendPacket is called by the queue flush, Close and NewChannel only.",
- "C02": " Also: the retry decision uses errors.Is on the not-enough-bytes sentinel, and what a completed package frees is decided on the packet under the position after the shift; Bytes fails only when every queued packet is consumed; the header parser accepts every 16-bit length; end of message comes from the EOM bit only; typed readers go through Bytes and no generic io reader runs over the queue.",
- "C03": " Also: the synthetic final DONE is emitted only when the next token could not be read (also when the synthesis lives in WritePacket), and the drain after a callback error is started only when the package at hand is not the final DONE; the end-of-message reset clears the whole queue state, a failed attempt rolls back to the position read for that attempt, and a parse error ends the dissection of the response; single-byte reads go through Bytes; lastPkgRx is written on delivery only; EOM is set exactly on short packets.",
- "C06": " Also: the read-side byte accounting is followed through post-processing of the value read, LookupFieldFmt gives every data type the format codec named after it, reader and writer of the per-value status byte decide alike whether it is present, a capability mask is as long as the server sent it, every short read surfaces as ErrNotEnoughBytes, and a reader that reports a byte count reports what it consumed; every fixed-width login field is written or the record rejected; a length prefix is the length of the bytes written; LastPkg has an arm for every predecessor of a row; a format's maximal length is what the wire says.",
- "C07": " Also: no io.ReadFull/ReadAtLeast/Copy/bufio reads from a BytesChannel, the typed readers reach the stream through Bytes only, and queue packets are discarded only by WritePacket/sendPackets (never by a parser); a parse attempt fills the package object created for it; queue primitives keep every unread byte (R15.6/R15.7/R02.4 re-stated).",
- "C08": " Also: the capability masks are created by the constructor only, and every index/slice expression in the package parsers is in range for every reply (never a crash); a reply package that fails to parse ends the dissection of the reply; a reply cut inside a field is parsed again from the saved position, member readers report the bytes they consumed, the announced packet size is parsed at full width, a send does not touch the receive queue, format pointers are nil-checked, and the session key is 32 bytes.",
- "C09": " Also: the current server's remote-password entry is rebuilt from DSN.Password at every login, NewLoginConfig requests the password encryption unconditionally, the OAEP rules follow the encryption to wherever a refactoring puts it, a sent packet leaves the transmit queue, a failed packet write ends the login, and values read from the reply do not alias queue storage.",
- "C10": " Also: only completely parsed packages become the predecessor of the next one, end of message resets or rolls back but never both, LookupFieldFmt never calls a method on a nil format, and a tokenless package has its buffer.",
- "C11": " Also: the callback's error is returned only inside the error that carries the messages, an ENVCHANGE with no member is parsed, the messages of an EEDError are only appended to, and a send or Reset does not touch the receive queue.",
- "C12": " Also: the receive queue is used by the reader goroutine only, and the channel-map lock is not held across a delivery that can block; the channel id occupies header bytes 4..5, a packet number is taken in the iteration that writes the packet, closed is tested under the lock before a queue is used, a transport error keeps its cause, no held RWMutex is re-acquired through a callee, the end-of-message reset is complete, errors of the connection reach polling consumers, and the wire image has Header.Length bytes.",
- "C13": " Also: Conn.Close closes the values of a range over the channel map, Channel.Close unregisters on every path that marks it closed, the connection's context descends from the one passed to NewConn, and the channel's write lock is taken by Close and the setters only; a channel id is handed out once, and NextPackageUntil returns a failed receive with its error in the chain; nothing is delivered by a goroutine the reader started; loops around receive calls end on any error; the wait for the rest of a packet consults the connection's context; every lock taken in package tds is released on every exit.",
- "C14": " Also: a polling consumer is told 'no package ready' only by the select that also offers the error queues; the completeness test of Packet.ReadFrom is accepted in the counter form and in the remaining-slice form (the latter only when every way back to the read advances the slice); the distinguished error conditions are plain errors.New sentinels; a queued package is handed out before any context is consulted; header-only means Length == 8; Packet.WriteTo reports the transport count; Logout succeeds only after the answer; SendRemainingPackets flushes once.",
- "C15": " Also: NewPacketQueue stores the size function it is given, and String(n) is exactly the converted bytes of Bytes(n); Read hands on the error of Bytes.",
- "C16": " Also: no magnitude-only copy of a signed number, the DECN/NUMN magnitude is right-aligned in its slot, the reading methods store nothing into the receiver, and SetBytes and SetInt64 store the value as it is given; sanity rejects nothing inside the valid region; Cmp looks at precision and scale; NewDecimal checks the values it was given.",
- "C17": " Also: the URI query is written with query escaping, never with url.PathEscape; Parse recognises the URI form by \"://\"; format strings are constants; values reach the typed assignment unchanged; FormatSimple writes every member.",
- "C18": " Also: the accessors Name() and String() hand out the text as it was formatted.",
+ "C01": " Also: the packet header is serialised and parsed at the offsets of the specification, nothing on the reader goroutine's path writes the transmit side of a channel, the channel id reaches the header without passing through a narrower integer type, the wire image of a packet has exactly Header.Length bytes, and a PACKSIZE member of an ENVCHANGE sets the size in force or fails; SetPosition is only the rollback of a failed receive attempt and AddPacket only the receive path; typed writers go through WriteBytes; sendPacket is called by the queue flush, Close and NewChannel only. Queued bytes are never reset in front of a send on the same path; both packet queues get the connection's PacketSize method itself.",
+ "C02": " Also: the retry decision uses errors.Is on the not-enough-bytes sentinel, and what a completed package frees is decided on the packet under the position after the shift; Bytes fails only when every queued packet is consumed; the header parser accepts every 16-bit length; end of message comes from the EOM bit only; typed readers go through Bytes and no generic io reader runs over the queue. Reader fields of Conn are assigned by NewConn only; AllPacketsConsumed tests indexData only under an equality test of indexPacket with len(queue); every received packet is allocated inside the read loop.",
+ "C03": " Also: the synthetic final DONE is emitted only when the next token could not be read (also when the synthesis lives in WritePacket), and the drain after a callback error is started only when the package at hand is not the final DONE; the end-of-message reset clears the whole queue state, a failed attempt rolls back to the position read for that attempt, and a parse error ends the dissection of the response; single-byte reads go through Bytes; lastPkgRx is written on delivery only; EOM is set exactly on short packets. DONE, DONEPROC and DONEINPROC are allocated as the one type the finality tests assert; every received packet is a fresh object.",
+ "C06": " Also: the read-side byte accounting is followed through post-processing of the value read, LookupFieldFmt gives every data type the format codec named after it, reader and writer of the per-value status byte decide alike whether it is present, a capability mask is as long as the server sent it, every short read surfaces as ErrNotEnoughBytes, and a reader that reports a byte count reports what it consumed; every fixed-width login field is written or the record rejected; a length prefix is the length of the bytes written; LastPkg has an arm for every predecessor of a row; a format's maximal length is what the wire says. A typed read is never converted to a narrower integer type; LookupFieldFmt and LookupFieldData create siblings of one family per data type; fieldDataBase.readFrom succeeds only after the data read; ByteSizes lists INTk/UINTk/SINTk/FLTk with k bytes.",
+ "C07": " Also: no io.ReadFull/ReadAtLeast/Copy/bufio reads from a BytesChannel, the typed readers reach the stream through Bytes only, and queue packets are discarded only by WritePacket/sendPackets (never by a parser); a parse attempt fills the package object created for it; queue primitives keep every unread byte (R15.6/R15.7/R02.4 re-stated). String returns string(bs), err of its Bytes call on every path; ByteSizes lists the width-named types with their width; the non-nil edge of every tested read error reaches error returns only.",
+ "C08": " Also: the capability masks are created by the constructor only, and every index/slice expression in the package parsers is in range for every reply (never a crash); a reply package that fails to parse ends the dissection of the reply; a reply cut inside a field is parsed again from the saved position, member readers report the bytes they consumed, the announced packet size is parsed at full width, a send does not touch the receive queue, format pointers are nil-checked, and the session key is 32 bytes. A message id read from the wire is never narrowed; a parameter announced with one type is created as that type's data sibling.",
+ "C09": " Also: the current server's remote-password entry is rebuilt from DSN.Password at every login, NewLoginConfig requests the password encryption unconditionally, the OAEP rules follow the encryption to wherever a refactoring puts it, a sent packet leaves the transmit queue, a failed packet write ends the login, and values read from the reply do not alias queue storage. The queue that carries the ciphertexts follows the live packet size; SendRemainingPackets resets on every exit after the flush.",
+ "C10": " Also: only completely parsed packages become the predecessor of the next one, end of message resets or rolls back but never both, LookupFieldFmt never calls a method on a nil format, and a tokenless package has its buffer. No nil *Channel is stored in the routing table.",
+ "C11": " Also: the callback's error is returned only inside the error that carries the messages, an ENVCHANGE with no member is parsed, the messages of an EEDError are only appended to, and a send or Reset does not touch the receive queue. No lock taken in the function that dispatches to the hooks is still held on some path when they are called.",
+ "C12": " Also: the receive queue is used by the reader goroutine only, and the channel-map lock is not held across a delivery that can block; the channel id occupies header bytes 4..5, a packet number is taken in the iteration that writes the packet, closed is tested under the lock before a queue is used, a transport error keeps its cause, no held RWMutex is re-acquired through a callee, the end-of-message reset is complete, errors of the connection reach polling consumers, and the wire image has Header.Length bytes. No error queue is created without a buffer.",
+ "C13": " Also: Conn.Close closes the values of a range over the channel map, Channel.Close unregisters on every path that marks it closed, the connection's context descends from the one passed to NewConn, and the channel's write lock is taken by Close and the setters only; a channel id is handed out once, and NextPackageUntil returns a failed receive with its error in the chain; nothing is delivered by a goroutine the reader started; loops around receive calls end on any error; the wait for the rest of a packet consults the connection's context; every lock taken in package tds is released on every exit. No error queue is created without a buffer (the reader's plain send cannot park in front of its exit test).",
+ "C14": " Also: a polling consumer is told 'no package ready' only by the select that also offers the error queues; the completeness test of Packet.ReadFrom is accepted in the counter form and in the remaining-slice form (the latter only when every way back to the read advances the slice); the distinguished error conditions are plain errors.New sentinels; a queued package is handed out before any context is consulted; header-only means Length == 8; Packet.WriteTo reports the transport count; Logout succeeds only after the answer; SendRemainingPackets flushes once. A tested read error is never weakened by a second condition; Bytes reports not-enough-bytes only under a test of the requested count (Bytes(0) succeeds at the end of the data).",
+ "C15": " Also: NewPacketQueue stores the size function it is given, and String(n) is exactly the converted bytes of Bytes(n); Read hands on the error of Bytes; WriteBytes copies in one place. AllPacketsConsumed tests indexData only for the last packet; Bytes(0) succeeds everywhere.",
+ "C16": " Also: no magnitude-only copy of a signed number, the DECN/NUMN magnitude is right-aligned in its slot, the reading methods store nothing into the receiver, and SetBytes and SetInt64 store the value as it is given; sanity rejects nothing inside the valid region; Cmp looks at precision and scale; NewDecimal checks the values it was given. Power-of-ten tables hold 10^i at index i.",
+ "C17": " Also: the URI query is written with query escaping, never with url.PathEscape; Parse recognises the URI form by \"://\"; format strings are constants; values reach the typed assignment unchanged; FormatSimple writes every member. No key or alias is claimed by two members of a tagged struct, embedded structs included.",
+ "C18": " Also: the accessors Name() and String() hand out the text as it was formatted. The id counter is 8-byte aligned under the 32-bit size model.",
  "C19": " Also: the default comparer compares the parsed versions themselves (not a projection such as Core()), and no function of package capability consults package-level state; VersionString returns the specification unchanged; an error of the comparer ends the evaluation with an error; ranges in the list are never modified; Target.Version fails when the evaluation fails.",
- "C20": " Also: no String/Error method formats its own receiver under a verb that calls it again; ToGo and String do not iterate a map and use no package-level state; String is ToGo().String().",
+ "C20": " Also: no String/Error method formats its own receiver under a verb that calls it again; ToGo and String do not iterate a map and use no package-level state; String is ToGo().String(). Every ASELevel* constant has type ASEIsolationLevel.",
 }
 
 ALL = ["C%02d" % i for i in range(1, 21)]
